@@ -5,4 +5,4 @@ From Coq Require Import ExtrOcamlBasic.
 From VV Require Import Base.F64 Rng.RngDefs Rng.DistDefs.
 Extraction "rng_model.ml" new_engine seed_engine random_seed next outputs advance state_eqb
   show_u read_u save_state load_state load_state_benign load_state_literal state_list reload_outputs Z.of_N Z.to_N
-  between_int between_real boolean canonical answers F64.of_bits F64.to_bits F64.is_nan.
+  between_int between_real boolean canonical discrete answers F64.of_bits F64.to_bits F64.is_nan.
